@@ -5,6 +5,8 @@ import Autd3.Lemmas.P02Frames
 import Autd3.Lemmas.P02Mod
 import Autd3.Lemmas.P02Stm
 import Autd3.Lemmas.P02DefaultsWire
+import Autd3.Lemmas.Hist8
+import Autd3.Lemmas.RtNew
 /-!
 # C02 — device state depends on the last datagram per resource, not on history
 First layer: the three copies of the default pulse-width table agree (regenerated from the
@@ -175,7 +177,7 @@ theorem frame_configDebug (s : State) (d : Array Nat) (h : WF s) :
       ∀ j, j ≠ 0 → ¬(240 ≤ j ∧ j < 256) → rd s'.ctl j = rd s.ctl j := by
   refine ⟨_, configDebug_eq s d h, wf_ctl s _ h (by simp [h.ctl]), rfl, ?_⟩
   intro j h0 hj
-  simp only [rd_set, rd_writeLoop]
+  simp only [P02.rd_set, rd_writeLoop]
   have : ¬ (240 ≤ j ∧ j < 240 + 16 ∧ j < s.ctl.size) := by omega
   simp [h0, this]
 
@@ -187,7 +189,7 @@ theorem frame_synchronize (s : State) (d : Array Nat) (h : WF s) :
   refine ⟨_, synchronize_eq s d h, ?_, rfl, rfl, ?_⟩
   · exact wf_ctl { s with synchronized := true } _ { h with } (by simp [h.ctl])
   · intro j h0
-    simp [rd_set, h0]
+    simp [P02.rd_set, h0]
 
 /-- `config_pwe`: only the pulse-width table -/
 theorem frame_configPwe (s : State) (d : Array Nat) (h : WF s) :
@@ -227,7 +229,7 @@ theorem frame_configSilencer (s : State) (d : Array Nat) (h : WF s) :
     have e1 : j ≠ 64 := by omega
     have e2 : j ≠ 65 := by omega
     have e3 : j ≠ 66 := by omega
-    simp [rd_set, h0, e1, e2, e3]
+    simp [P02.rd_set, h0, e1, e2, e3]
   · split
     · exact ⟨_, _, rfl, h, rfl, fun _ _ _ => rfl, fun _ => rfl⟩
     · refine ⟨_, _, rfl, ?_, rfl, ?_, fun hne => absurd rfl hne⟩
@@ -236,7 +238,7 @@ theorem frame_configSilencer (s : State) (d : Array Nat) (h : WF s) :
         have e1 : j ≠ 64 := by omega
         have e2 : j ≠ 67 := by omega
         have e3 : j ≠ 68 := by omega
-        simp [rd_set, h0, e1, e2, e3]
+        simp [P02.rd_set, h0, e1, e2, e3]
 
 /-- `configure_force_fan`: only the CPU flag word (bit 13), which keeps its invariant -/
 theorem frame_configureForceFan (s : State) (d : Array Nat) (h : WF s) :
@@ -287,10 +289,10 @@ theorem begin_resets_cursor_mod (s s' : State) (d : Array Nat) (a : Nat) (h : WF
       refine ⟨by rw [e1]; rfl, ?_, ?_⟩
       · unfold reg
         rw [e3 _ (by decide) (by decide) (by decide) (by simp only [Cpu.ADDR_MOD_MEM_WR_PAGE, Cpu.ADDR_MOD_CYCLE0]; omega)]
-        simp [modBeginRes, rd_set, h.ctl, Cpu.ADDR_MOD_MEM_WR_PAGE]
+        simp [modBeginRes, P02.rd_set, h.ctl, Cpu.ADDR_MOD_MEM_WR_PAGE]
       · unfold reg
         rw [e3 _ (by decide) (by decide) (by decide) (by simp only [Cpu.ADDR_MOD_MEM_WR_SEGMENT, Cpu.ADDR_MOD_CYCLE0]; omega)]
-        simp [modBeginRes, rd_set, h.ctl, Cpu.ADDR_MOD_MEM_WR_PAGE, Cpu.ADDR_MOD_MEM_WR_SEGMENT]
+        simp [modBeginRes, P02.rd_set, h.ctl, Cpu.ADDR_MOD_MEM_WR_PAGE, Cpu.ADDR_MOD_MEM_WR_SEGMENT]
         omega
     · left
       rw [writeMod_rej2 s d hB hv1 hv2] at hr
@@ -469,6 +471,321 @@ theorem defaults_obs_unchanged (p p' : State) (a : PowerOnObs p) (b : PowerOnObs
     by rw [a.stmCycle seg hseg, b.stmCycle seg hseg], by rw [a.stmRep seg hseg, b.stmRep seg hseg],
     by rw [a.drives seg hseg, b.drives seg hseg, hn]⟩
 
+
+/-! ## third layer: history independence and frame conditions of the multi-frame data datagrams
+
+Vocabulary (all in `Lemmas/Hist*.lean`, every observation through `Obs.lean`):
+`Hist.ModAccepts / GainAccepts / FociAccepts / GstmAccepts s t …` = the hypotheses of the C01 round trips (the device
+`s` is well-formed in the sense `Rt.WF`, the transmit buffer `t` is fresh, the datagram is legal, the firmware's
+guards accept it); `Rt.Sends dg s t t' s'` = the driver's send loop delivers every frame of `dg` and each is
+acknowledged; `Hist.modObs s seg` = (`modulation_buffer`, division, loop count, size) of a segment;
+`Hist.stmHdr s seg` = (gain mode?, number of patterns, division, loop count); `Hist.PhaseSame s1 s2` = same
+transducer count and same stored phase correction (a different resource, which `drives_at` adds to what it returns);
+`Hist.StmObsSame / ModObsSame / MiscObsSame s s'` = EVERY public accessor of the STM side (both segments, request and
+transition registers, swap chain, current drives) / of the modulation side / of silencer, pulse-width table, phase
+correction, GPIO-debug outputs, FPGA-state word, thermo, reads flag, port A, `synchronized`, flag word, version
+registers reads the same in `s'` as in `s`; `Hist.Settled s` = `CTL_FLAG` equals the CPU's flag word (true after
+every accepted frame and after `Clear`).  What legitimately changes on the addressed side is said in each theorem:
+the request / transition registers and the swap chain change iff the datagram carries a transition; `ack`,
+`lastMsgId`, `rxData` change with every frame and are not observations of a resource. -/
+
+/-- the send loop is a function of (datagram, device, transmit buffer) -/
+theorem send_loop_deterministic (dg : Wire.Dg) (s : State) (t t1 t2 : Wire.Tx) (s1 s2 : State)
+    (h1 : Rt.Sends dg s t t1 s1) (h2 : Rt.Sends dg s t t2 s2) : t1 = t2 ∧ s1 = s2 :=
+  Hist.Sends_unique dg s t t1 t2 s1 s2 h1 h2
+
+/-- **Modulation, history independence** — all legal sizes 2…65536, any two well-formed prior devices (any cursor,
+any stale page / segment register, any old content, any swap-chain state): both accept, and after EVERY complete
+send the addressed segment reads back the same on both, namely exactly the datagram. -/
+theorem mod_history_independent (s1 s2 : State) (t1 t2 : Wire.Tx) (seg : Nat) (tr : Wire.Tr) (rep div : Nat)
+    (samples : Array Nat) (A1 : Hist.ModAccepts s1 t1 seg tr rep div samples) (A2 : Hist.ModAccepts s2 t2 seg tr rep div samples) :
+    (∃ t1' s1', Rt.Sends (.modulation seg tr rep div samples) s1 t1 t1' s1') ∧
+    (∃ t2' s2', Rt.Sends (.modulation seg tr rep div samples) s2 t2 t2' s2') ∧
+    ∀ t1' s1' t2' s2', Rt.Sends (.modulation seg tr rep div samples) s1 t1 t1' s1' →
+      Rt.Sends (.modulation seg tr rep div samples) s2 t2 t2' s2' →
+      Hist.modObs s1' seg = Hist.modObs s2' seg ∧ Hist.modObs s1' seg = (.ok samples, div, rep, samples.size) := by
+  obtain ⟨e1, f1⟩ := Hist.mod_sends s1 t1 A1.wf A1.tx A1.fresh seg tr rep div samples A1.ok A1.g1 A1.g2
+  obtain ⟨e2, f2⟩ := Hist.mod_sends s2 t2 A2.wf A2.tx A2.fresh seg tr rep div samples A2.ok A2.g1 A2.g2
+  refine ⟨e1, e2, ?_⟩
+  intro t1' s1' t2' s2' h1 h2
+  have a := Hist.modObs_of_held (f1 _ _ h1).2.2.2.1
+  have b := Hist.modObs_of_held (f2 _ _ h2).2.2.2.1
+  exact ⟨by rw [a, b], a⟩
+
+/-- the corollary asked for: what device `s` holds after the send = what a freshly initialised device
+(`CPUEmulator::new`, any clock) holds after the same send -/
+theorem mod_same_as_power_on (s : State) (t : Wire.Tx) (seg : Nat) (tr : Wire.Tr) (rep div : Nat) (samples : Array Nat)
+    (A : Hist.ModAccepts s t seg tr rep div samples) (numTr now : Nat) (hn : numTr ≤ 249) :
+    ∃ p, Fw.new numTr now = .ok p ∧ Rt.WF p ∧ ∀ t2, Hist.ModAccepts p t2 seg tr rep div samples →
+      ∀ t' s' t2' p', Rt.Sends (.modulation seg tr rep div samples) s t t' s' →
+        Rt.Sends (.modulation seg tr rep div samples) p t2 t2' p' → Hist.modObs s' seg = Hist.modObs p' seg := by
+  obtain ⟨p, hp, hw⟩ := Rt.new_WF numTr now hn
+  refine ⟨p, hp, hw, ?_⟩
+  intro t2 A2 t' s' t2' p' h1 h2
+  exact ((mod_history_independent s p t t2 seg tr rep div samples A A2).2.2 _ _ _ _ h1 h2).1
+
+/-- **Gain, history independence**: on two devices with the same phase correction, `drives_at(seg, 0)` and the
+segment header are the same after the send, and equal the datagram's drives (phase + stored correction), one
+pattern, gain mode, division and loop count 0xFFFF. -/
+theorem gain_history_independent (s1 s2 : State) (t1 t2 : Wire.Tx) (seg : Nat) (tr : Wire.Tr) (drives : Array Nat)
+    (A1 : Hist.GainAccepts s1 t1 seg tr drives) (A2 : Hist.GainAccepts s2 t2 seg tr drives) (hp : Hist.PhaseSame s1 s2) :
+    (∃ t1' s1', Rt.Sends (.gain seg tr drives) s1 t1 t1' s1') ∧ (∃ t2' s2', Rt.Sends (.gain seg tr drives) s2 t2 t2' s2') ∧
+    ∀ t1' s1' t2' s2', Rt.Sends (.gain seg tr drives) s1 t1 t1' s1' → Rt.Sends (.gain seg tr drives) s2 t2 t2' s2' →
+      Obs.drivesAt s1' seg 0 = Obs.drivesAt s2' seg 0 ∧ Hist.stmHdr s1' seg = Hist.stmHdr s2' seg ∧
+      Hist.stmHdr s1' seg = (true, 1, 0xFFFF, 0xFFFF) ∧
+      Obs.drivesAt s1' seg 0 = .ok ((Array.range s1.numTr).map fun i =>
+        Rt.driveWithCorr (rd drives i) (Obs.phaseCorrAt s1 i)) := by
+  obtain ⟨e1, f1⟩ := Hist.gain_sends s1 t1 A1.wf A1.tx A1.fresh seg A1.seg tr A1.tr drives A1.drives
+  obtain ⟨e2, f2⟩ := Hist.gain_sends s2 t2 A2.wf A2.tx A2.fresh seg A2.seg tr A2.tr drives A2.drives
+  refine ⟨e1, e2, ?_⟩
+  intro t1' s1' t2' s2' h1 h2
+  have a := (f1 _ _ h1).2.2.2.1
+  have b := (f2 _ _ h2).2.2.2.1
+  obtain ⟨c1, c2⟩ := Hist.gain_pair a b hp
+  exact ⟨c1, c2, (Hist.gainObs_of_held a).2, (Hist.gainObs_of_held a).1⟩
+
+/-- **FociSTM, history independence**, 1…8 foci, 2 ≤ P·N ≤ 65536: on two devices with the same phase correction,
+`drives_at(seg, idx)` is the same for every pattern `idx < P` (it is a function of the stored 64-bit records, the
+sound speed, the foci count and the phase correction — `Hist.fociDrivesAt_congr`), the stored records are the
+datagram's, and header, foci count and sound speed agree. -/
+theorem fociStm_history_independent (s1 s2 : State) (t1 t2 : Wire.Tx) (n seg : Nat) (tr : Wire.Tr) (rep div ss : Nat)
+    (records : Array Nat) (P : Nat) (A1 : Hist.FociAccepts s1 t1 n seg tr rep div ss records P)
+    (A2 : Hist.FociAccepts s2 t2 n seg tr rep div ss records P) (hp : Hist.PhaseSame s1 s2) :
+    (∃ t1' s1', Rt.Sends (.fociStm n seg tr rep div ss records) s1 t1 t1' s1') ∧
+    (∃ t2' s2', Rt.Sends (.fociStm n seg tr rep div ss records) s2 t2 t2' s2') ∧
+    ∀ t1' s1' t2' s2', Rt.Sends (.fociStm n seg tr rep div ss records) s1 t1 t1' s1' →
+      Rt.Sends (.fociStm n seg tr rep div ss records) s2 t2 t2' s2' →
+      (∀ idx, idx < P → Obs.drivesAt s1' seg idx = Obs.drivesAt s2' seg idx) ∧
+      (∀ k, k < P * n → Rt.stmRecord (Obs.stmMem s1' seg) k = rd records k ∧ Rt.stmRecord (Obs.stmMem s2' seg) k = rd records k) ∧
+      Hist.stmHdr s1' seg = Hist.stmHdr s2' seg ∧ Hist.stmHdr s1' seg = (false, P, div, rep) ∧
+      Obs.numFoci s1' seg = n ∧ Obs.numFoci s2' seg = n ∧ Obs.soundSpeed s1' seg = ss ∧ Obs.soundSpeed s2' seg = ss := by
+  obtain ⟨e1, f1⟩ := Hist.foci_sends s1 t1 A1.wf A1.tx A1.fresh n seg tr rep div ss records P A1.ok A1.g1 A1.g2
+  obtain ⟨e2, f2⟩ := Hist.foci_sends s2 t2 A2.wf A2.tx A2.fresh n seg tr rep div ss records P A2.ok A2.g1 A2.g2
+  refine ⟨e1, e2, ?_⟩
+  intro t1' s1' t2' s2' h1 h2
+  obtain ⟨w1, _, _, a, x1, _⟩ := f1 _ _ h1
+  obtain ⟨w2, _, _, b, x2, _⟩ := f2 _ _ h2
+  obtain ⟨c1, _, c3, c4, _, _⟩ := Hist.foci_pair a b w1 w2 x1 x2 hp
+  exact ⟨c1, fun k hk => ⟨a.recs k hk, b.recs k hk⟩, c3, c4, a.hnf, b.hnf, a.hss, b.hss⟩
+
+/-- **GainSTM, history independence**, three modes, 2…1024 patterns: on two devices with the same phase correction,
+`drives_at(seg, idx)` is the same for every pattern, and the header is (gain mode, size, division, loop count). -/
+theorem gainStm_history_independent (s1 s2 : State) (t1 t2 : Wire.Tx) (mode seg : Nat) (tr : Wire.Tr) (rep div : Nat)
+    (patterns : Array (Array Nat)) (A1 : Hist.GstmAccepts s1 t1 mode seg tr rep div patterns)
+    (A2 : Hist.GstmAccepts s2 t2 mode seg tr rep div patterns) (hp : Hist.PhaseSame s1 s2) :
+    (∃ t1' s1', Rt.Sends (.gainStm mode seg tr rep div patterns) s1 t1 t1' s1') ∧
+    (∃ t2' s2', Rt.Sends (.gainStm mode seg tr rep div patterns) s2 t2 t2' s2') ∧
+    ∀ t1' s1' t2' s2', Rt.Sends (.gainStm mode seg tr rep div patterns) s1 t1 t1' s1' →
+      Rt.Sends (.gainStm mode seg tr rep div patterns) s2 t2 t2' s2' →
+      (∀ idx, idx < patterns.size → Obs.drivesAt s1' seg idx = Obs.drivesAt s2' seg idx) ∧
+      (∀ idx, idx < patterns.size → ∀ i, i < s1.numTr →
+        rd (Obs.stmMem s1' seg) (256 * idx + i) = Rt.expDrive mode (rd (Rt.patAt patterns idx) i)) ∧
+      Hist.stmHdr s1' seg = Hist.stmHdr s2' seg ∧ Hist.stmHdr s1' seg = (true, patterns.size, div, rep) := by
+  obtain ⟨e1, f1⟩ := Hist.gstm_sends s1 t1 A1.wf A1.tx A1.fresh mode seg tr rep div patterns A1.ok A1.g1 A1.g2
+  obtain ⟨e2, f2⟩ := Hist.gstm_sends s2 t2 A2.wf A2.tx A2.fresh mode seg tr rep div patterns A2.ok A2.g1 A2.g2
+  refine ⟨e1, e2, ?_⟩
+  intro t1' s1' t2' s2' h1 h2
+  obtain ⟨w1, _, _, a, x1, _⟩ := f1 _ _ h1
+  obtain ⟨w2, _, _, b, x2, _⟩ := f2 _ _ h2
+  obtain ⟨c1, c2, c3⟩ := Hist.gstm_pair a b w1 w2 x1 x2 hp
+  exact ⟨c1, a.rows, c2, c3⟩
+
+/-- **Modulation, frame condition.**  After every complete send to segment `seg`: the OTHER modulation segment reads
+back as before; every accessor of the STM / gain side (both segments, all patterns, request, transition, swap chain)
+and of silencer, pulse-width table, phase correction, GPIO/debug outputs, state word, flags reads as before; a
+settled device stays settled and then the fan flag and the emulated GPIO inputs read as before.  The modulation
+request / transition registers and swap chain are untouched iff the datagram carries no transition. -/
+theorem mod_frame (s : State) (t : Wire.Tx) (seg : Nat) (tr : Wire.Tr) (rep div : Nat) (samples : Array Nat)
+    (A : Hist.ModAccepts s t seg tr rep div samples) :
+    (∃ t' s', Rt.Sends (.modulation seg tr rep div samples) s t t' s') ∧
+    ∀ t' s', Rt.Sends (.modulation seg tr rep div samples) s t t' s' →
+      Hist.modObs s' (1 - seg) = Hist.modObs s (1 - seg) ∧ Hist.StmObsSame s s' ∧ Hist.MiscObsSame s s' ∧
+      (Hist.Settled s → Hist.Settled s' ∧ Obs.isForceFan s' = Obs.isForceFan s ∧ ∀ g, Fw.gpioIn s' g = Fw.gpioIn s g) ∧
+      (tr = none → s'.modSwap = s.modSwap ∧ Obs.reqModSeg s' = Obs.reqModSeg s ∧
+        Obs.modTransition s' = Obs.modTransition s ∧ Obs.currentModSeg s' = Obs.currentModSeg s ∧
+        Obs.currentModIdx s' = Obs.currentModIdx s) ∧
+      (∀ m v, tr = some (m, v) → Obs.reqModSeg s' = .ok seg ∧ Obs.modTransition s' = .ok (Rt.tmodeOf m v) ∧
+        Rt.SwapSet s.modSwap s'.modSwap s.dcSysTime rep div samples.size seg (Rt.tmodeOf m v)) := by
+  obtain ⟨e, f⟩ := Hist.mod_sends s t A.wf A.tx A.fresh seg tr rep div samples A.ok A.g1 A.g2
+  refine ⟨e, ?_⟩
+  intro t' s' h
+  obtain ⟨_, _, _, a, x, st⟩ := f _ _ h
+  have misc := Hist.miscObsSame_of_modSide x
+  refine ⟨Hist.otherMod_same a.otherMem a.otherRegs, Hist.stmObsSame_of_modSide x, misc,
+    fun hs => ⟨st hs, misc.fan hs (st hs)⟩, ?_, ?_⟩
+  · intro htr; subst htr
+    have r := a.req
+    exact ⟨r.1, r.2.1, r.2.2, by unfold Obs.currentModSeg; rw [r.1], by unfold Obs.currentModIdx; rw [r.1]⟩
+  · intro m v htr; subst htr; exact a.req
+
+/-- the same for EVERY content — no legality hypothesis on sizes, samples, division, transition: whenever the send
+loop delivers a Modulation datagram to a well-formed device and every frame is acknowledged, the STM side and the
+remaining resources are untouched -/
+theorem mod_frame_any_content (s : State) (t t' : Wire.Tx) (s' : State) (seg : Nat) (tr : Wire.Tr) (rep div : Nat)
+    (samples : Array Nat) (hW : Rt.WF s) (ht : Rt.TxOK t) (h : Rt.Sends (.modulation seg tr rep div samples) s t t' s') :
+    Hist.StmObsSame s s' ∧ Hist.MiscObsSame s s' ∧ (Hist.Settled s → Hist.Settled s') := by
+  obtain ⟨x, st⟩ := Hist.sends_mod_side s t t' s' seg tr rep div samples (Hist.Pre_of_WF hW) ht h
+  exact ⟨Hist.stmObsSame_of_modSide x, Hist.miscObsSame_of_modSide x, st⟩
+
+/-- the same for the three STM-side datagrams, EVERY content: the modulation side (both segments, buffer, division,
+loop count, size, request, transition, swap chain, current sample) and the remaining resources are untouched -/
+theorem stm_frame_any_content (s : State) (t t' : Wire.Tx) (s' : State) (dg : Wire.Dg) (hW : Rt.WF s) (ht : Rt.TxOK t)
+    (hdg : (∃ seg tr drives, dg = .gain seg tr drives) ∨ (∃ n seg tr rep div ss records, dg = .fociStm n seg tr rep div ss records) ∨
+      (∃ mode seg tr rep div patterns, dg = .gainStm mode seg tr rep div patterns))
+    (h : Rt.Sends dg s t t' s') :
+    Hist.ModObsSame s s' ∧ Hist.MiscObsSame s s' ∧ (Hist.Settled s → Hist.Settled s') := by
+  have : Hist.StmSide s s' ∧ (Hist.Settled s → Hist.Settled s') := by
+    rcases hdg with ⟨seg, tr, drives, rfl⟩ | ⟨n, seg, tr, rep, div, ss, records, rfl⟩ | ⟨mode, seg, tr, rep, div, patterns, rfl⟩
+    · exact Hist.sends_gain_side s t t' s' seg tr drives (Hist.Pre_of_WF hW) ht h
+    · exact Hist.sends_foci_side s t t' s' n seg tr rep div ss records (Hist.Pre_of_WF hW) ht h
+    · exact Hist.sends_gstm_side s t t' s' mode seg tr rep div patterns (Hist.Pre_of_WF hW) ht h
+  exact ⟨Hist.modObsSame_of_stmSide this.1, Hist.miscObsSame_of_stmSide this.1, this.2⟩
+
+/-- **Gain, frame condition** (`_partial`: see the last clause).  After every complete send to segment `seg`: the
+whole modulation side and the remaining resources read as before; of the OTHER STM segment the memory and the
+header (mode, size, division, loop count) are as before and, when it is a gain segment, `drives_at` of every pattern.
+The STM request / transition registers and swap chain are untouched iff the datagram carries no transition.
+
+FULL STATEMENT NOT PROVED: `∀ idx, drives_at(1 - seg, idx)` unchanged also when the other segment is a FOCUS segment.
+Missing: that the sound-speed / foci-count registers of the other segment (91…94) are not written; the side relation
+used here (`Hist.StmSide`) allows the whole block 80…99 and the C01 invariants do not export those two registers. -/
+theorem gain_frame_partial (s : State) (t : Wire.Tx) (seg : Nat) (tr : Wire.Tr) (drives : Array Nat)
+    (A : Hist.GainAccepts s t seg tr drives) :
+    (∃ t' s', Rt.Sends (.gain seg tr drives) s t t' s') ∧
+    ∀ t' s', Rt.Sends (.gain seg tr drives) s t t' s' →
+      Hist.ModObsSame s s' ∧ Hist.MiscObsSame s s' ∧
+      (Hist.Settled s → Hist.Settled s' ∧ Obs.isForceFan s' = Obs.isForceFan s ∧ ∀ g, Fw.gpioIn s' g = Fw.gpioIn s g) ∧
+      Hist.stmHdr s' (1 - seg) = Hist.stmHdr s (1 - seg) ∧ Obs.stmMem s' (1 - seg) = Obs.stmMem s (1 - seg) ∧
+      (Obs.isStmGainMode s (1 - seg) = true → ∀ idx, Obs.drivesAt s' (1 - seg) idx = Obs.drivesAt s (1 - seg) idx) ∧
+      (tr = none → s'.stmSwap = s.stmSwap ∧ Obs.reqStmSeg s' = Obs.reqStmSeg s ∧ Obs.stmTransition s' = Obs.stmTransition s) ∧
+      (tr.isSome = true → Obs.reqStmSeg s' = .ok seg ∧ Obs.stmTransition s' = .ok .syncIdx ∧
+        Rt.SwapSet s.stmSwap s'.stmSwap s.dcSysTime 0xFFFF 0xFFFF 1 seg .syncIdx) := by
+  obtain ⟨e, f⟩ := Hist.gain_sends s t A.wf A.tx A.fresh seg A.seg tr A.tr drives A.drives
+  refine ⟨e, ?_⟩
+  intro t' s' h
+  obtain ⟨_, _, _, a, x, st, r1, r2⟩ := f _ _ h
+  have misc := Hist.miscObsSame_of_stmSide x
+  obtain ⟨o1, o2, o3⟩ := Hist.otherStm_same (g := 1 - seg) x a.otherMem
+    ⟨a.otherRegs.2.1, a.otherRegs.2.2.1, a.otherRegs.1, a.otherRegs.2.2.2⟩
+  exact ⟨Hist.modObsSame_of_stmSide x, misc, fun hs => ⟨st hs, misc.fan hs (st hs)⟩, o1, o2, o3, r1, r2⟩
+
+/-- **FociSTM, frame condition** (`_partial`, same missing clause as `gain_frame_partial`) -/
+theorem fociStm_frame_partial (s : State) (t : Wire.Tx) (n seg : Nat) (tr : Wire.Tr) (rep div ss : Nat) (records : Array Nat)
+    (P : Nat) (A : Hist.FociAccepts s t n seg tr rep div ss records P) :
+    (∃ t' s', Rt.Sends (.fociStm n seg tr rep div ss records) s t t' s') ∧
+    ∀ t' s', Rt.Sends (.fociStm n seg tr rep div ss records) s t t' s' →
+      Hist.ModObsSame s s' ∧ Hist.MiscObsSame s s' ∧
+      (Hist.Settled s → Hist.Settled s' ∧ Obs.isForceFan s' = Obs.isForceFan s ∧ ∀ g, Fw.gpioIn s' g = Fw.gpioIn s g) ∧
+      Hist.stmHdr s' (1 - seg) = Hist.stmHdr s (1 - seg) ∧ Obs.stmMem s' (1 - seg) = Obs.stmMem s (1 - seg) ∧
+      (Obs.isStmGainMode s (1 - seg) = true → ∀ idx, Obs.drivesAt s' (1 - seg) idx = Obs.drivesAt s (1 - seg) idx) ∧
+      (tr = none → s'.stmSwap = s.stmSwap ∧ Obs.reqStmSeg s' = Obs.reqStmSeg s ∧ Obs.stmTransition s' = Obs.stmTransition s) ∧
+      (∀ m v, tr = some (m, v) → Obs.reqStmSeg s' = .ok seg ∧ Obs.stmTransition s' = .ok (Rt.tmodeOf m v) ∧
+        Rt.SwapSet s.stmSwap s'.stmSwap s.dcSysTime rep div P seg (Rt.tmodeOf m v)) := by
+  obtain ⟨e, f⟩ := Hist.foci_sends s t A.wf A.tx A.fresh n seg tr rep div ss records P A.ok A.g1 A.g2
+  refine ⟨e, ?_⟩
+  intro t' s' h
+  obtain ⟨_, _, _, a, x, st⟩ := f _ _ h
+  have misc := Hist.miscObsSame_of_stmSide x
+  obtain ⟨o1, o2, o3⟩ := Hist.otherStm_same (g := 1 - seg) x a.otherMem a.otherRegs
+  refine ⟨Hist.modObsSame_of_stmSide x, misc, fun hs => ⟨st hs, misc.fan hs (st hs)⟩, o1, o2, o3, ?_, ?_⟩
+  · intro htr; subst htr; exact a.req
+  · intro m v htr; subst htr; exact a.req
+
+/-- **GainSTM, frame condition** (`_partial`, same missing clause as `gain_frame_partial`) -/
+theorem gainStm_frame_partial (s : State) (t : Wire.Tx) (mode seg : Nat) (tr : Wire.Tr) (rep div : Nat)
+    (patterns : Array (Array Nat)) (A : Hist.GstmAccepts s t mode seg tr rep div patterns) :
+    (∃ t' s', Rt.Sends (.gainStm mode seg tr rep div patterns) s t t' s') ∧
+    ∀ t' s', Rt.Sends (.gainStm mode seg tr rep div patterns) s t t' s' →
+      Hist.ModObsSame s s' ∧ Hist.MiscObsSame s s' ∧
+      (Hist.Settled s → Hist.Settled s' ∧ Obs.isForceFan s' = Obs.isForceFan s ∧ ∀ g, Fw.gpioIn s' g = Fw.gpioIn s g) ∧
+      Hist.stmHdr s' (1 - seg) = Hist.stmHdr s (1 - seg) ∧ Obs.stmMem s' (1 - seg) = Obs.stmMem s (1 - seg) ∧
+      (Obs.isStmGainMode s (1 - seg) = true → ∀ idx, Obs.drivesAt s' (1 - seg) idx = Obs.drivesAt s (1 - seg) idx) ∧
+      (tr = none → s'.stmSwap = s.stmSwap ∧ Obs.reqStmSeg s' = Obs.reqStmSeg s ∧ Obs.stmTransition s' = Obs.stmTransition s) ∧
+      (∀ m v, tr = some (m, v) → Obs.reqStmSeg s' = .ok seg ∧ Obs.stmTransition s' = .ok (Rt.tmodeOf m v) ∧
+        Rt.SwapSet s.stmSwap s'.stmSwap s.dcSysTime rep div patterns.size seg (Rt.tmodeOf m v)) := by
+  obtain ⟨e, f⟩ := Hist.gstm_sends s t A.wf A.tx A.fresh mode seg tr rep div patterns A.ok A.g1 A.g2
+  refine ⟨e, ?_⟩
+  intro t' s' h
+  obtain ⟨_, _, _, a, x, st⟩ := f _ _ h
+  have misc := Hist.miscObsSame_of_stmSide x
+  obtain ⟨o1, o2, o3⟩ := Hist.otherStm_same (g := 1 - seg) x a.otherMem a.otherRegs
+  refine ⟨Hist.modObsSame_of_stmSide x, misc, fun hs => ⟨st hs, misc.fan hs (st hs)⟩, o1, o2, o3, ?_, ?_⟩
+  · intro htr; subst htr; exact a.req
+  · intro m v htr; subst htr; exact a.req
+
+/-- why `Settled` is a hypothesis of the fan / GPIO clauses of the frame theorems: on a device whose CPU flag word says
+"fan on" while `CTL_FLAG` has not been rewritten yet (the state `ecat_recv` leaves when a frame's handler answers
+with an error: the early return skips the final `CTL_FLAG` write), the closing step `fin` of ANY accepted frame — of a
+Modulation or Gain send as well — makes `is_force_fan` flip from false to true.  The fan request is a different
+resource; the data datagram only flushes it. -/
+theorem frame_fan_unsettled_counterexample :
+    Obs.isForceFan ({ flagsInternal := 0x2000 } : State) = false ∧
+    Obs.isForceFan (Rt.fin ({ flagsInternal := 0x2000 } : State) 1) = true ∧
+    reg ({ flagsInternal := 0x2000 } : State) Cpu.ADDR_CTL_FLAG ≠ ({ flagsInternal := 0x2000 } : State).flagsInternal % 65536 := by
+  decide +kernel
+
+/-! ## third layer: Clear from any well-formed state -/
+
+/-- **`clear_from_any`**: from EVERY well-formed state — in either sense, `P02.WF` (sizes, swap-chain dividers) or
+`Rt.WF` (the invariant the round trips maintain), so in particular after any sequence of accepted sends — `Clear`
+succeeds and produces a state that satisfies the same absolute description as the power-on device
+`Fw.new s.numTr s.dcSysTime`: `Cleared` (every register of `clearedRegs` incl. the write page / segment registers,
+the CPU-side cursors `modCycle = 2`, `stmCycle = (1,1)`, `stmMode`, the division / loop copies, current segments,
+silencer guard copies, flag word 0 = `CTL_FLAG`, the first sample word of both modulation segments, the first 249
+words of both STM segments, phase correction, pulse-width table, both swap chains' `cur / state / stop / extMode / mode /
+sysTime / freqDiv.1 / cycle.1 / ticOff.1`) and hence `PowerOnObs` (every `Obs` accessor).  NOT reset (see `clear_keeps`
+and `clearSwap`): `synchronized`, `numFoci`, `gainStmMode`, `stmWrite`, the transition latches, `readsStore`,
+`isRxDataUsed`, `rxData`, `lastMsgId`, `ack`, registers FPGA_STATE / VERSION / SOUND_SPEED / NUM_FOCI, and of the swap
+chains `rep`, `req`, `startLap`, `curIdx`, `extLastLap` and the segment-1 entries. -/
+theorem clear_from_any (s : State) (h : WF s ∨ Rt.WF s) :
+    ∃ s' p, Fw.clear s #[] = .ok (s', Cpu.NO_ERR) ∧ Fw.new s.numTr s.dcSysTime = .ok p ∧ WF s' ∧
+      Cleared s' ∧ Cleared p ∧ PowerOnObs s' ∧ PowerOnObs p ∧ Hist.Settled s' ∧ Hist.Settled p ∧
+      s'.numTr = p.numTr ∧ s'.dcSysTime = p.dcSysTime ∧
+      s'.modCycle = p.modCycle ∧ s'.stmCycle = p.stmCycle ∧ s'.stmMode = p.stmMode ∧ s'.modDiv = p.modDiv ∧
+      s'.modRep = p.modRep ∧ s'.stmDiv = p.stmDiv ∧ s'.stmRep = p.stmRep ∧ s'.modSegment = p.modSegment ∧
+      s'.stmSegment = p.stmSegment ∧ s'.flagsInternal = p.flagsInternal ∧ s'.strict = p.strict ∧
+      s'.minDivI = p.minDivI ∧ s'.minDivP = p.minDivP ∧
+      (∀ q ∈ clearedRegs, reg s' q.1 = reg p q.1) ∧
+      (∀ seg, seg ≤ 1 → Hist.modObs s' seg = Hist.modObs p seg ∧ Hist.stmHdr s' seg = Hist.stmHdr p seg ∧
+        Obs.drivesAt s' seg 0 = Obs.drivesAt p seg 0) := by
+  have hw : WF s := by
+    rcases h with h | h
+    · exact h
+    · exact Hist.p02wf_of_wf h
+  have hp := wf_preClear s.numTr s.dcSysTime hw.numTr
+  have ca := cleared_clearResult s hw
+  have cb := cleared_clearResult _ hp
+  have n1 : (clearResult s).numTr = s.numTr := (clearResult_kept s).2.2.2.2.2.2.2.2.2.2.2.1
+  have n2 : (clearResult (preClear s.numTr s.dcSysTime)).numTr = s.numTr :=
+    (clearResult_kept (preClear s.numTr s.dcSysTime)).2.2.2.2.2.2.2.2.2.2.2.1
+  have t1 : (clearResult s).dcSysTime = s.dcSysTime := (clearResult_kept s).2.2.2.2.2.2.2.2.2.2.2.2
+  have t2 : (clearResult (preClear s.numTr s.dcSysTime)).dcSysTime = s.dcSysTime :=
+    (clearResult_kept (preClear s.numTr s.dcSysTime)).2.2.2.2.2.2.2.2.2.2.2.2
+  have a := powerOnObs_of_cleared ca (by rw [n1]; exact hw.numTr)
+  have b := powerOnObs_of_cleared cb (by rw [n2]; exact hw.numTr)
+  have sa : Hist.Settled (clearResult s) := by
+    show rd (clearResult s).ctl 0 = _; rw [ca.flag0, ca.flagsInternal]
+  have sb : Hist.Settled (clearResult (preClear s.numTr s.dcSysTime)) := by
+    show rd (clearResult (preClear s.numTr s.dcSysTime)).ctl 0 = _; rw [cb.flag0, cb.flagsInternal]
+  refine ⟨clearResult s, clearResult (preClear s.numTr s.dcSysTime), clear_eq s hw, new_eq _ _ hw.numTr,
+    wf_clearResult s hw, ca, cb, a, b, sa, sb, by rw [n1, n2], by rw [t1, t2], by rw [ca.modCycle, cb.modCycle],
+    by rw [ca.stmCycle, cb.stmCycle], by rw [ca.stmMode, cb.stmMode], by rw [ca.modDiv, cb.modDiv],
+    by rw [ca.modRep, cb.modRep], by rw [ca.stmDiv, cb.stmDiv], by rw [ca.stmRep, cb.stmRep],
+    by rw [ca.modSegment, cb.modSegment], by rw [ca.stmSegment, cb.stmSegment],
+    by rw [ca.flagsInternal, cb.flagsInternal], by rw [ca.strict, cb.strict], by rw [ca.minDivI, cb.minDivI],
+    by rw [ca.minDivP, cb.minDivP], ?_, ?_⟩
+  · intro q hq
+    show rd _ q.1 = rd _ q.1
+    rw [ca.regs q hq, cb.regs q hq]
+  · intro seg hseg
+    refine ⟨?_, ?_, by rw [a.drives seg hseg, b.drives seg hseg, n1, n2]⟩
+    · unfold Hist.modObs
+      rw [a.modBuffer seg hseg, b.modBuffer seg hseg, a.modDiv seg hseg, b.modDiv seg hseg, a.modRep seg hseg,
+        b.modRep seg hseg, a.modCycle seg hseg, b.modCycle seg hseg]
+    · unfold Hist.stmHdr
+      rw [a.stmGain seg hseg, b.stmGain seg hseg, a.stmCycle seg hseg, b.stmCycle seg hseg, a.stmDiv seg hseg,
+        b.stmDiv seg hseg, a.stmRep seg hseg, b.stmRep seg hseg]
+
 /-! ## non-vacuity -/
 
 /-- a concrete, non-trivial state satisfying `WF`: mid-history values everywhere the invariant speaks -/
@@ -477,8 +794,8 @@ example : WF { numTr := 249, portA := 5, readsFpgaState := true, flagsInternal :
                modSwap := { cur := 1, req := 1, state := .finiteLoop, rep := 3, freqDiv := (5120, 10), cycle := (100, 3), stop := true },
                stmSwap := { cur := 1, extMode := true, state := .infiniteLoop, freqDiv := (40, 40), cycle := (2, 7) } } := by
   exact { ctl := by simp, phaseCorr := by simp, pwe := by simp, modMem0 := by simp, modMem1 := by simp,
-          stmMem0 := by simp, stmMem1 := by simp, numTr := by decide, modSwap := by simp [SwapWF],
-          stmSwap := by simp [SwapWF], flags := ⟨by decide, by decide⟩ }
+          stmMem0 := by simp, stmMem1 := by simp, numTr := by decide, modSwap := by simp [P02.SwapWF],
+          stmSwap := by simp [P02.SwapWF], flags := ⟨by decide, by decide⟩ }
 
 /-- the hypotheses of the modulation theorems are satisfiable: the default-constructed device accepts a
 two-sample single-frame modulation (BEGIN|END, no transition, segment 0, divider 0xFFFF) -/
@@ -488,8 +805,8 @@ example : ∃ (s s' : State) (d : Array Nat), WF s ∧
     1 ≤ u8at d FwLayout.ModulationHead_size_off ∧ writeMod s d = .ok (s', Cpu.NO_ERR) := by
   have hw : WF ({} : State) := by
     exact { ctl := by simp, phaseCorr := by simp, pwe := by simp, modMem0 := by simp, modMem1 := by simp,
-            stmMem0 := by simp, stmMem1 := by simp, numTr := by decide, modSwap := by simp [SwapWF],
-            stmSwap := by simp [SwapWF], flags := ⟨by decide, by decide⟩ }
+            stmMem0 := by simp, stmMem1 := by simp, numTr := by decide, modSwap := by simp [P02.SwapWF],
+            stmSwap := by simp [P02.SwapWF], flags := ⟨by decide, by decide⟩ }
   refine ⟨{}, modTailState (modBeginRes {} #[0x10, 0x03, 2, 0xFE, 0xFF, 0xFF, 0xFF, 0xFF, 0, 0, 0, 0, 0, 0, 0, 0, 0xAA, 0xBB]) #[0x10, 0x03, 2, 0xFE, 0xFF, 0xFF, 0xFF, 0xFF, 0, 0, 0, 0, 0, 0, 0, 0, 0xAA, 0xBB],
     #[0x10, 0x03, 2, 0xFE, 0xFF, 0xFF, 0xFF, 0xFF, 0, 0, 0, 0, 0, 0, 0, 0, 0xAA, 0xBB], hw,
     by decide, by decide, by decide, ?_⟩
@@ -499,5 +816,70 @@ example : ∃ (s s' : State) (d : Array Nat), WF s ∧
   have e2 : hasFlag (u8at #[0x10, 0x03, 2, 0xFE, 0xFF, 0xFF, 0xFF, 0xFF, 0, 0, 0, 0, 0, 0, 0, 0, 0xAA, 0xBB]
       FwLayout.ModulationHead_flag_off) Cpu.MODULATION_FLAG_UPDATE = false := by decide
   simp only [e1, e2, if_true, Bool.false_eq_true, if_false]
+
+
+/-! ### non-vacuity of the third layer: a dirty device (`Hist.dirtyState`: stale cursors and page registers, latched
+foci count, GainSTM mode 2, fan + GPIO flags set and settled, last message id 9) and the power-on-like `Rt.exState`
+both meet the hypotheses, with the same phase correction -/
+
+example : Rt.WF Hist.dirtyState ∧ Hist.Settled Hist.dirtyState ∧ Hist.PhaseSame Hist.dirtyState Rt.exState ∧
+    Hist.dirtyState.modCycle = 40000 ∧ Hist.dirtyState.stmWrite = 77 ∧ Hist.dirtyState.flagsInternal = 0x2100 :=
+  ⟨Hist.WF_dirtyState, Hist.Settled_dirty, Hist.PhaseSame_dirty, rfl, rfl, rfl⟩
+
+/-- 1000-sample modulation (3 frames) to segment 1, SyncIdx transition, finite loop: accepted by both devices -/
+example : Hist.ModAccepts Hist.dirtyState Rt.exTx 1 (some (0, 0)) 3 5120 (Array.replicate 1000 7) ∧
+    Hist.ModAccepts Rt.exState Rt.exTx 1 (some (0, 0)) 3 5120 (Array.replicate 1000 7) := by
+  have H : ∀ s : State, s.dcSysTime = 0 → Rt.ModOK s 1 (some (0, 0)) 3 5120 (Array.replicate 1000 7) := by
+    intro s hs
+    refine ⟨by decide, by simp, by simp, ?_, by decide, by decide, ?_⟩
+    · intro i; unfold rd; by_cases h : i < 1000 <;> simp [h]
+    · intro m v h
+      simp only [Option.some.injEq, Prod.mk.injEq] at h
+      obtain ⟨rfl, rfl⟩ := h
+      exact ⟨Or.inl rfl, by decide, by rw [hs]; decide⟩
+  exact ⟨⟨Hist.WF_dirtyState, Rt.TxOK_exTx, Hist.Fresh_dirty, H _ rfl, by decide, by decide⟩,
+    ⟨Rt.WF_exState, Rt.TxOK_exTx, Rt.Fresh_ex, H _ rfl, by decide, by decide⟩⟩
+
+/-- a 249-transducer Gain to segment 1 without transition -/
+example : Hist.GainAccepts Hist.dirtyState Rt.exTx 1 none (Array.replicate 249 0x80FF) ∧
+    Hist.GainAccepts Rt.exState Rt.exTx 1 none (Array.replicate 249 0x80FF) := by
+  have hd : ∀ i, rd (Array.replicate 249 0x80FF) i < 65536 := by intro i; unfold rd; by_cases h : i < 249 <;> simp [h]
+  exact ⟨⟨Hist.WF_dirtyState, Rt.TxOK_exTx, Hist.Fresh_dirty, by decide, Or.inl rfl, hd⟩,
+    ⟨Rt.WF_exState, Rt.TxOK_exTx, Rt.Fresh_ex, by decide, Or.inl rfl, hd⟩⟩
+
+/-- a 300-pattern FociSTM with 3 foci per pattern (13 frames) to segment 1, GPIO transition -/
+example : Hist.FociAccepts Hist.dirtyState Rt.exTx 3 1 (some (2, 1)) 5 512 340 (Array.replicate 900 12345) 300 ∧
+    Hist.FociAccepts Rt.exState Rt.exTx 3 1 (some (2, 1)) 5 512 340 (Array.replicate 900 12345) 300 := by
+  have H : ∀ s : State, s.dcSysTime = 0 → Rt.FociOK s 3 1 (some (2, 1)) 5 512 340 (Array.replicate 900 12345) 300 := by
+    intro s hs
+    refine ⟨by decide, by decide, by simp, by decide, ?_, by decide, by decide, by decide, ?_⟩
+    · intro i; unfold rd; by_cases h : i < 900 <;> simp [h]
+    · intro m v h
+      simp only [Option.some.injEq, Prod.mk.injEq] at h
+      obtain ⟨rfl, rfl⟩ := h
+      exact ⟨Or.inr (Or.inr (Or.inl ⟨rfl, by decide⟩)), by decide, by rw [hs]; decide⟩
+  exact ⟨⟨Hist.WF_dirtyState, Rt.TxOK_exTx, Hist.Fresh_dirty, H _ rfl, by decide, by decide⟩,
+    ⟨Rt.WF_exState, Rt.TxOK_exTx, Rt.Fresh_ex, H _ rfl, by decide, by decide⟩⟩
+
+/-- a 7-pattern GainSTM in PhaseHalf mode (2 frames) to segment 0, no transition -/
+example : Hist.GstmAccepts Hist.dirtyState Rt.exTx 2 0 none 0xFFFF 4000 (Array.replicate 7 (Array.replicate 249 0x1234)) ∧
+    Hist.GstmAccepts Rt.exState Rt.exTx 2 0 none 0xFFFF 4000 (Array.replicate 7 (Array.replicate 249 0x1234)) := by
+  have H : ∀ s : State, Rt.GOK s 2 0 none 0xFFFF 4000 (Array.replicate 7 (Array.replicate 249 0x1234)) := by
+    intro s
+    refine ⟨by decide, by decide, by simp, ?_, by decide, by decide, ?_⟩
+    · intro idx i
+      unfold Rt.patAt rd
+      by_cases h : idx < 7
+      · simp [h]; by_cases h2 : i < 249 <;> simp [h2]
+      · simp [h]; show (#[] : Array Nat)[i]?.getD 0 < 65536; simp
+    · intro m v h; simp at h
+  exact ⟨⟨Hist.WF_dirtyState, Rt.TxOK_exTx, Hist.Fresh_dirty, H _, by decide, by decide⟩,
+    ⟨Rt.WF_exState, Rt.TxOK_exTx, Rt.Fresh_ex, H _, by decide, by decide⟩⟩
+
+/-- `clear_from_any` applies to the dirty device -/
+example : ∃ s' p, Fw.clear Hist.dirtyState #[] = .ok (s', Cpu.NO_ERR) ∧ Fw.new 249 0 = .ok p ∧ PowerOnObs s' ∧
+    s'.modCycle = p.modCycle := by
+  obtain ⟨s', p, h1, h2, _, _, _, h6, _, _, _, _, _, h12, _⟩ := clear_from_any Hist.dirtyState (Or.inr Hist.WF_dirtyState)
+  exact ⟨s', p, h1, h2, h6, h12⟩
 
 end Autd3.C02
